@@ -402,6 +402,7 @@ type Knobs struct {
 	JWTBearerIATOptional    bool              `json:"jb_iat_optional,omitempty"`
 	LegacyRevocationHandler bool              `json:"legacy_revocation_handler,omitempty"` // an extra revocation handler over an empty store is registered first
 	JWTScopeField           int               `json:"jwt_scope_field,omitempty"`           // Config.JWTScopeClaimKey: 0 unset (= list "scp"), 1 list, 2 string "scope", 3 both
+	LibSession              bool              `json:"lib_session,omitempty"`               // the application uses the library's openid.DefaultSession (only with opaque access tokens)
 	CustomResponseMode      bool              `json:"custom_response_mode,omitempty"`      // Config.ResponseModeHandlerExtension announces the extra mode "sim_post" (a decorated form post)
 	DenyClient              string            `json:"deny_client,omitempty"`               // Config.ClientAuthenticationStrategy: the default strategy plus an operator deny-list holding this client id
 	JWTBearerSkipClientAuth bool              `json:"jb_skip_client_auth,omitempty"`
@@ -715,6 +716,8 @@ func (w *World) Compose() {
 		// the presented tokens and, as RFC 7009 wants, answers "nothing to do" - the handler that owns the token must still be asked.
 		legacy := &oauth2.TokenRevocationHandler{TokenRevocationStorage: storage.NewMemoryStore(), RefreshTokenStrategy: w.HMAC, AccessTokenStrategy: w.HMAC}
 		cfg.RevocationHandlers = append(fosite.RevocationHandlers{legacy}, cfg.RevocationHandlers...)
+		// ... and a second introspection handler, asked after the real one, that owns none of the tokens and declines
+		cfg.TokenIntrospectionHandlers = append(cfg.TokenIntrospectionHandlers, decliningIntrospector{})
 	}
 }
 
@@ -753,4 +756,11 @@ func (h *simModeHandler) WriteAuthorizeError(ctx context.Context, rw http.Respon
 	vals.Set("state", ar.GetState())
 	rw.Header().Set("Content-Type", "text/html;charset=UTF-8")
 	fosite.WriteAuthorizeFormPostResponse(u.String(), vals, fosite.DefaultFormPostTemplate, rw)
+}
+
+// decliningIntrospector: an additional TokenIntrospector (e.g. for another token format) that does not know the presented token.
+type decliningIntrospector struct{}
+
+func (decliningIntrospector) IntrospectToken(ctx context.Context, token string, tokenUse fosite.TokenUse, accessRequest fosite.AccessRequester, scopes []string) (fosite.TokenUse, error) {
+	return "", fosite.ErrUnknownRequest
 }
